@@ -369,7 +369,7 @@ func init() {
 			Exh:    ExhC12Count(n),
 			ExhGen: func(i int) *Trace { return ExhC12(i, n) },
 			Budget: tierPick(tier, 50*time.Second, 12*time.Minute),
-			Rule: "a writing session interrupted at operation boundaries by restarts (Discard/abandon + reopen, Finalize + reopen; 'restart' is a generated operation of the simulator) on blockstore.OpenReadWrite / storage.OpenReadableWritable over a simulated disk; oracle: after the final Finalize the disk bytes equal those of the uninterrupted session, every put's error-ness is the same; mismatch cases: reopen with one field changed must fail and leave bytes and mutation log untouched. " +
+			Rule: "a writing session interrupted at operation boundaries by restarts (Discard/abandon + reopen, Finalize + reopen; 'restart' is a generated operation of the simulator) on blockstore.OpenReadWrite / storage.OpenReadableWritable over a simulated disk; oracle: after the final Finalize the disk bytes equal those of the uninterrupted session, every put's error-ness is the same; mismatch cases (roots-different, roots-extra, roots-missing, roots-dup-swap, roots-other-codec, data-pad, version; after Discard or after Finalize): reopen with one field changed must fail and leave bytes and mutation log untouched. " +
 				"Exhaustive part: every placement of 0..2 restarts of either kind in every gap of an n-put session (n<=2 quick, n<=3 thorough) under 10 option sets; seeded part: random sessions to 8 puts. Non-trivial = at least one restart happened (or a mismatch reopen was attempted); distinct = distinct (options, put/restart string or mismatch kind)",
 			Gen: GenC12, Exec: RunC12, Minimise: true,
 			Assume: []string{"root order is not part of 'same roots' (CarHeader.Matches documents that order is ignored), so reordered roots are not generated as a mismatch"},
